@@ -128,6 +128,15 @@ CHECKS.update({
     ),
 })
 
+CHECKS.update({
+    "C17": (
+        "Hypothesis script + invocation generator; tools run in-process (sample as subprocess); oracle: own reader of the printed expression / DIMACS evaluated on all assignments vs the API's return-bit conjunction, normal-form shape predicates, byte equality with the API's QASM export",
+        "Generated scripts of 1..3 @qlassf functions are passed to py2bexp (all forms x formats x entry point x stdin/file x stdout/file) and py2qasm (QASM 2/3); printed expressions are parsed and compared on every assignment with the conjunction of the selected function's return bits, must mention argument bits only and have the requested normal-form shape; DIMACS must be equivalent under some injective variable numbering; py2qasm text must equal the API export. Sampled over scripts and options, exhaustive over assignments.",
+        "Trusts vlib/boolparse.py (self-checked against sympy printing) and vlib/boolsem.py; open known finding C17-K1 (sympy to_anf) excludes anf cases on which sympy's own to_anf is wrong.",
+        "DESIGN.md section 3 C17",
+    ),
+})
+
 NOT_YET = "check not built yet in this session (work in progress; see DESIGN.md section 3)"
 
 
